@@ -200,6 +200,18 @@ CLAIMED = {
             "options.",
             "max_iter=100; tolerance 1.02*Opt+1.5 is a stated constant; one feature (vertex enumeration); fitted "
             "coefficients enter on a 1e-2 grid."),
+    "C16": ("DESIGN 4/C16",
+            "TLA+ spec PipelineAst (pipelines as node tables grown by an action; preorder enumeration with coordinates): TLC "
+            "model checking + spec->code replay of the complete ASTs as real scikit-learn pipelines, validated by "
+            "PipelineTrace (enumeration, text, debugging records, parsed DOT graph invariants)",
+            "TLC checks once / parents-first / distinct coordinates / coordinate length = depth for every AST in the bound; "
+            "the complete ASTs are realised with tagged stub steps over a DataFrame, an array or a list of names and the "
+            "library's answers are validated by the trace specification: enumerate_pipeline_models and pipeline2str "
+            "against the spec's enumeration, alter_pipeline_for_debugging (same outputs, every step recorded with its "
+            "actual input/output, consecutive steps chain, second call refused), and pipeline2dot parsed by a small "
+            "recursive-descent parser (declared endpoints, unique ids, acyclic, every step and input column drawn, outputs "
+            "reachable).",
+            "stub leaf steps; DataFrameMapper / azureml branches need packages that are not installed."),
 }
 
 PENDING_REASON = "check not built yet in this round (planned: see DESIGN.md section 4); not claimed until it runs"
